@@ -8,11 +8,12 @@
      `assert!(from <= to)` of Store::filtered was removed by a fix: commit);
    - bytes on the wire (model/Deser.v, WireFrame.v, WireVarint.v: frames,
      varints, payload allocation; theorems of property C14 are cited here);
-   - fetch scheduling triggered by messages and git request headers: cited
-     from their own property files when present (C16, C12/Pktline). *)
+   - fetch scheduling triggered by messages (model/FetchSched.v, property C16);
+   - git stream request headers (model/Pktline.v, built with property C12). *)
 From HW Require Import lib.Base lib.SMap model.Gossip proofs.GossipProofs.
 From HW Require Import model.WireVarint model.WireFrame model.Deser proofs.DeserProofs.
 From HW Require model.FetchSched proofs.FetchSchedProofs.
+From HW Require model.Pktline proofs.PktlineProofs.
 Local Open Scope N_scope.
 
 (* any sequence of events — connections, disconnections, ANY announcements
@@ -50,6 +51,14 @@ Proof. exact deserialize_next_total. Qed.
 Theorem C13_fetch_scheduling_never_panics :
   forall cfg evs, exists st, FetchSched.run cfg evs = FetchSched.Ret st.
 Proof. exact FetchSchedProofs.no_panic. Qed.
+
+(* the header of a git stream request: for ANY bytes (any 4-hex-digit length
+   field incl. 0000..0003 and values above the 1024-byte buffer, non-hex,
+   non-UTF-8, truncated) the parser returns a request or an error; every slice
+   of the Rust code is an explicit bounds-checked operation in model/Pktline.v *)
+Theorem C13_git_header_never_panics :
+  forall ext bytes site, Pktline.git_request ext bytes <> Pktline.Panic site.
+Proof. exact PktlineProofs.pktline_no_panic. Qed.
 
 Example C13_example_zero_timestamp_disconnects :
   let c := mkCfg 0 true [] [] [] in
